@@ -16,7 +16,7 @@ use crate::engine::{Case, Ctx, Sm64};
 use crate::gen::shard::{key, materialize, mh, serialize, shard_spec, unkey, ShardSpec, K};
 use crate::util::SlowReader;
 
-pub const RULE: &str = "shard contents = sets of distinct-keyed file / xorb records (0..3000 files, 0..600 xorbs, 0..40 segments or chunks each and occasionally 70..130 segments of 60-64 MiB, i.e. files over 4 GiB; four flag combinations, empty records) whose truncated keys are engineered (0, 1, MAX-1, MAX, clustered windows, uniform, shared prefixes up to 7 per prefix); oracle = the map model the shard was built from: every present key returns exactly its record, absent / same-prefix / neighbouring-prefix keys return not-found, scans return all records in table order, sizes and totals match, the streaming (sync + async with generated read fragmentation, with both, either or none of the two callbacks) and minimal readers (all include-flag pairs, and their re-serialization) yield the same record bytes. Second stream: raw sorted (u64,u32) tables of 0..5000 keys with duplicate runs and extreme values against a linear-scan model of search_on_sorted_u64s. non-trivial = a lookup table of > 256 entries queried for a key (so the interpolation phase runs) with >= 2 records sharing its prefix, or a shard with >= 2 records sharing a prefix; for raw tables: > 256 entries and a queried key with >= 2 entries; distinct by fingerprint of the generated case";
+pub const RULE: &str = "shard contents = sets of distinct-keyed file / xorb records (0..3000 files, 0..600 xorbs, 0..40 segments or chunks each and occasionally 70..130 segments of 60-64 MiB, i.e. files over 4 GiB; four flag combinations, empty records) whose truncated keys are engineered (0, 1, MAX-1, MAX, clustered windows, uniform, shared prefixes up to 7 per prefix); oracle = the map model the shard was built from: every present key returns exactly its record, absent / same-prefix / neighbouring-prefix keys return not-found, scans return all records in table order, sizes and totals match, the streaming (sync + async with generated read fragmentation, with both, either or none of the two callbacks) and minimal readers (all include-flag pairs, and their re-serialization) yield the same record bytes. Second stream: raw sorted (u64,u32) tables of 0..5000 keys with duplicate runs and extreme values against a linear-scan model of search_on_sorted_u64s. non-trivial = a lookup table of > 256 entries queried for a key (so the interpolation phase runs) with >= 2 records sharing its prefix, or a shard with >= 2 records sharing a prefix; for raw tables: > 256 entries and a queried key with >= 2 entries; distinct by fingerprint of the generated case Stream 'big-table': sorted tables of 0 .. 200 000 entries (count biased to 2^16 and its neighbours and to 2^k-1 / 2^k / 2^k+1), keys uniform over the whole u64 range or confined to its top or bottom sixteenth, probes = keys at positions with the same bias counted from both ends, their neighbours and the extremes; oracle = binary search on the key list; non-trivial there = more than 256 entries.";
 
 pub const ASSUMPTIONS: &[&str] = &[
     "shard contents are sets of distinct keys (the quantifier ranges over contents, not insertion histories)",
@@ -520,7 +520,83 @@ fn table_oracle(c: &TableCase, info: &mut Case) -> Result<(), String> {
     Ok(())
 }
 
+// ---- stream 'big-table': lookup tables with entry counts around and beyond 2^16 ----
+
+#[derive(Clone, Debug, Serialize, Deserialize)]
+pub struct BigTableCase {
+    pub seed: u64,
+    pub n: u32,
+    /// 0 = keys uniform over the whole u64 range, 1 = confined to the top 1/16, 2 = to the bottom 1/16
+    pub spread: u8,
+    /// positions of the probed keys
+    pub probes: Vec<u32>,
+}
+
+fn big_table_case() -> impl Strategy<Value = BigTableCase> {
+    (
+        any::<u64>(),
+        prop_oneof![3 => 65_530u32..65_545, 3 => crate::gen::edge_u32(200_000), 1 => 0u32..3_000],
+        0u8..3,
+        proptest::collection::vec(crate::gen::edge_u32(200_000), 4..40),
+    )
+        .prop_map(|(seed, n, spread, probes)| BigTableCase { seed, n, spread, probes })
+}
+
+fn big_table_oracle(c: &BigTableCase, info: &mut Case) -> Result<(), String> {
+    let mut r = Sm64(c.seed);
+    let mut keys: Vec<u64> = (0..c.n)
+        .map(|_| match c.spread {
+            1 => u64::MAX - (r.next() >> 4),
+            2 => r.next() >> 4,
+            _ => r.next(),
+        })
+        .collect();
+    keys.sort();
+    let mut table = Vec::with_capacity(keys.len() * 12 + 16);
+    table.extend_from_slice(&[0xEE; 8]);
+    for (i, k) in keys.iter().enumerate() {
+        table.extend_from_slice(&k.to_le_bytes());
+        table.extend_from_slice(&(i as u32).to_le_bytes());
+    }
+    table.extend_from_slice(&[0xDD; 8]);
+    let mut probes: Vec<u64> = vec![0, 1, u64::MAX, u64::MAX - 1];
+    for p in &c.probes {
+        if !keys.is_empty() {
+            // positions counted from both ends, so that the top of the key range is probed as often as the bottom
+            for i in [(*p as usize).min(keys.len() - 1), keys.len() - 1 - (*p as usize).min(keys.len() - 1)] {
+                probes.push(keys[i]);
+                probes.push(keys[i].wrapping_add(1));
+                probes.push(keys[i].wrapping_sub(1));
+            }
+        }
+    }
+    for p in probes {
+        let lo = keys.partition_point(|k| *k < p);
+        let hi = keys.partition_point(|k| *k <= p);
+        let mut out = vec![0u32; 8];
+        let n = search_on_sorted_u64s(&mut Cursor::new(&table), 8, keys.len() as u64, p, read_u32::<Cursor<&Vec<u8>>>, &mut out)
+            .map_err(|e| format!("[sig:c09-search-err] search failed on a table of {} keys for key {p:#x}: {e}", keys.len()))?;
+        if n != (hi - lo).min(out.len()) {
+            return Err(format!("[sig:c09-search-count] search for {p:#x} in a table of {} keys returned {n} values; the table holds {}", keys.len(), hi - lo));
+        }
+        let mut got = out[..n].to_vec();
+        got.sort();
+        got.dedup();
+        if got.len() != n || got.iter().any(|v| (*v as usize) < lo || (*v as usize) >= hi) {
+            return Err(format!("[sig:c09-search-values] search for {p:#x} in a table of {} keys returned values {:?}; the entries of that key are {lo}..{hi}", keys.len(), &out[..n]));
+        }
+    }
+    info.label(match keys.len() {
+        0..=255 => "big-table<=255",
+        256..=65_535 => "big-table-256..65535",
+        _ => "big-table>=65536",
+    });
+    info.nontrivial_if(keys.len() > 256);
+    Ok(())
+}
+
 pub fn run(ctx: &Ctx) {
     ctx.explore("shard", ctx.tier.pick(6_000, 60_000), 16, shard_case, shard_oracle);
     ctx.explore("table", ctx.tier.pick(80_000, 1_200_000), 16, table_case, table_oracle);
+    ctx.explore("big-table", ctx.tier.pick(800, 24_000), 16, big_table_case, big_table_oracle);
 }
